@@ -546,7 +546,8 @@ namespace c08
     // the state key: for a correct implementation apply leaves no trace in the object, so without them every history with an apply BEFORE
     // a value update would be pruned as 'already visited' and a cache filled by the first apply could hide behind the canonical key.
     // om: index of the damping parameter currently set (0: constructor value, 1: alternative), nom: the one at the last init_numeric
-    struct Model { int phase = 0, mver = 0, nver = -1, app_sym = 0, app_num = 0, om = 0, nom = -1; };
+    // ninit: number of init_numeric calls since the last init_symbolic / done_numeric, capped at 2 (re-run without done_numeric)
+    struct Model { int phase = 0, mver = 0, nver = -1, app_sym = 0, app_num = 0, om = 0, nom = -1, ninit = 0; };
     const bool with_omega = orc.has_omega();
     auto legal = [with_omega](const Model& m, int op)
     {
@@ -574,11 +575,11 @@ namespace c08
         const bool last = (i + 1 == hist.size());
         switch(op)
         {
-        case L_INIT_SYM: box.prec->init_symbolic(); m.phase = 1; m.app_sym = 0; m.app_num = 0; break;
-        case L_INIT_NUM: box.prec->init_numeric(); m.phase = 2; m.nver = m.mver; m.nom = m.om; m.app_num = 0; break;
+        case L_INIT_SYM: box.prec->init_symbolic(); m.phase = 1; m.app_sym = 0; m.app_num = 0; m.ninit = 0; break;
+        case L_INIT_NUM: box.prec->init_numeric(); m.phase = 2; m.nver = m.mver; m.nom = m.om; m.app_num = 0; m.ninit = std::min(m.ninit + 1, 2); break;
         case L_UPDATE_DIAG: m.mver = m.mver ^ 2; box.update(m.mver); break;          // diagonal entries/blocks only
         case L_UPDATE_ALL: m.mver = m.mver ^ 3; box.update(m.mver); break;           // diagonal and off-diagonal values
-        case L_DONE_NUM: box.prec->done_numeric(); m.phase = 1; m.nver = -1; m.nom = -1; break;
+        case L_DONE_NUM: box.prec->done_numeric(); m.phase = 1; m.nver = -1; m.nom = -1; m.ninit = 0; break;
         case L_SET_OMEGA: m.om ^= 1; box.set_omega(m.om ? orc.alt_omega() : orc.cfg.omega); break;
         case L_DONE_SYM: box.prec->done_symbolic(); m.phase = 0; break;
         case L_APPLY:
@@ -602,7 +603,7 @@ namespace c08
         }
         c.count("transitions");
       }
-      verif::Hash h1, h2; h1.pod(m.phase).pod(m.mver).pod(m.nver).pod(m.app_sym).pod(m.app_num).pod(m.om).pod(m.nom); h2.pod(m.nom).pod(m.om).pod(m.app_num).pod(m.app_sym).pod(m.nver).pod(m.mver).pod(m.phase).str("x");
+      verif::Hash h1, h2; h1.pod(m.phase).pod(m.mver).pod(m.nver).pod(m.app_sym).pod(m.app_num).pod(m.om).pod(m.nom).pod(m.ninit); h2.pod(m.ninit).pod(m.nom).pod(m.om).pod(m.app_num).pod(m.app_sym).pod(m.nver).pod(m.mver).pod(m.phase).str("x");
       // implementation state: matrix values + numeric data of the preconditioner
       { const double* v = Sys<bs>::rawval(box.mat); size_t cnt = size_t(box.mat.used_elements()) * size_t(bs * bs); h1.bytes(v, cnt * sizeof(double)); h2.bytes(v, cnt * sizeof(double)); }
       if(m.phase == 2) { box.hash_numeric(h1); box.hash_numeric(h2); }
